@@ -714,7 +714,9 @@ func (p *Proxy) frameRelay(pc *pconn, d Dir, src *bufio.Reader, dst net.Conn) {
 			hl += 4
 		}
 		if plen > 256<<20 {
-			p.protoErr("%s conn %d: absurd frame length %d", d, pc.n, plen)
+			if atomic.LoadInt32(&pc.dead) == 0 {
+				p.protoErr("%s conn %d: absurd frame length %d", d, pc.n, plen)
+			}
 			return
 		}
 		payload := make([]byte, plen)
@@ -751,6 +753,12 @@ func (p *Proxy) frameRelay(pc *pconn, d Dir, src *bufio.Reader, dst net.Conn) {
 				p.mu.Unlock()
 				core.Log.Note("px.torn", fmt.Sprintf("c%d %s op=%d %d/%d", pc.n, d, opcode, got, plen))
 			}
+			return
+		}
+		if atomic.LoadInt32(&pc.dead) != 0 {
+			// the proxy has ended this connection itself (FIN/RST/close-frame fault): its drain goroutine reads the
+			// same socket from now on, so what this relay still sees is no longer a contiguous stream - nothing
+			// to validate or forward
 			return
 		}
 		if b := atomic.LoadInt32(&pc.black); b == 1 {
